@@ -5,11 +5,15 @@ import lib
 
 ID = "C17"
 PROP_FILE = "props/C17.v"
-COQ_TARGETS = ["props/C17.v", "model/Reent.v"]
-THEOREMS = ["C17_main", "C17_workers", "C17_shared_switches_refuted"]
+COQ_TARGETS = ["props/C17.v", "model/Reent.v", "model/Thunk.v"]
+THEOREMS = ["C17_main", "C17_workers", "C17_shared_switches_refuted", "C17_replaced_statements", "C17_shared_slot_refuted"]
 TRUSTED_BASE = [
     "Coq 8.16.1 kernel, vm_compute for the in-coqc correspondence",
-    "translator tools/translators/gen_switches.py (are the switches module globals or threading.local attributes)",
+    "translator tools/translators/gen_switches.py (are the switches module globals or threading.local attributes; is the saved-thunk slot of a tracer per "
+    "thread; on which tracers the before_stmt emission stores the value)",
+    "model/Thunk.v: the two halves of a replaced statement as atomic steps (the emission with its final store; the exec-saved-thunk call), tied by K-thunk "
+    "(tools/impl/c17_thunk.py parks threads inside the truth test of the value the emission returned)",
+    "tools/impl/c17_lines.py: every line of emit_event.py a scheduling point; oracle only (no model)",
     "model/Threads.v: statement-level steps of _emit_event/_emit_tracer_loop; GIL statement atomicity is modelled, not verified",
     "tools/impl/c17_threads.py: sys.settrace based scheduler that parks threads before each modelled statement",
 ]
@@ -87,7 +91,157 @@ def oracle_case(case, im):
 
 
 def fails_on_impl(case):
+    if "repl_sched" in case:
+        return thunk_oracle(case, run_thunk([case])[0])
+    if case.get("lines"):
+        return lines_oracle(case, run_lines([case])[0])
     return oracle_case(case, run_impl([case])[0])
+
+
+# ---------------------------------------------------------------- K-thunk: replaced statements (model/Thunk.v)
+def gen_thunk_case(rng):
+    nthreads = rng.choice([2, 2, 3])
+    threads = [rng.choice([1, 2, 3])] + [rng.choice([1, 2, 3]) for _ in range(nthreads - 1)]
+    ntr = rng.choice([1, 2, 2, 3])
+    tracers = []
+    for k in range(ntr):
+        repl = {}
+        for tid, n in enumerate(threads):
+            for i in range(n):
+                if rng.random() < 0.45:
+                    repl["%d:%d" % (tid, i)] = True
+        tracers.append({"multi": rng.random() < 0.5, "repl": repl})
+    sched = [rng.randrange(nthreads) for _ in range(rng.randrange(6, 40))]
+    return {"tracers": tracers, "threads": threads, "sched": sched, "repl_sched": True}
+
+
+def final_repl(case, tid, i):
+    """the replacement finally left for statement i of thread tid: the last tracer that sees the thread and replaces it"""
+    r = None
+    for k, t in enumerate(case["tracers"]):
+        if (tid == 0 or t["multi"]) and t["repl"].get("%d:%d" % (tid, i)):
+            r = k
+    return r
+
+
+def run_thunk(cases):
+    rc, res, out = lib.impl_run("c17_thunk.py", cases, timeout=1200)
+    if res is None:
+        raise RuntimeError("implementation harness failed:\n" + out[-3000:])
+    return res
+
+
+def thunk_spec(case):
+    rec, log = {}, {}
+    for tid, n in enumerate(case["threads"]):
+        rec[tid] = [(["o", tid, i] if final_repl(case, tid, i) is None else ["r", tid, i, final_repl(case, tid, i)]) for i in range(n)]
+        log[tid] = [[tid, i, k] for i in range(n) for k, t in enumerate(case["tracers"]) if tid == 0 or t["multi"]]
+    return rec, log
+
+
+def thunk_oracle(case, im):
+    """per thread: the statements that ran (original or replacement) and the deliveries are those of the thread running alone"""
+    if "crash" in im:
+        return {"what": "harness crashed: " + im["crash"], "tb": im.get("tb")}
+    if im["errors"]:
+        return {"what": "scheduler error", "errors": im["errors"]}
+    rec, log = thunk_spec(case)
+    for tid in range(len(case["threads"])):
+        got = [e for e in im["rec"] if e[1] == tid]
+        if got != rec[tid]:
+            return {"what": "thread %d (%s): statements run under the schedule differ from the thread running alone" % (tid, "main" if tid == 0 else "worker"),
+                    "expected": rec[tid], "observed": got, "kind": "thunk"}
+        gl = [e for e in im["log"] if e[0] == tid]
+        if gl != log[tid]:
+            return {"what": "thread %d: before_stmt deliveries differ from the thread running alone" % tid, "expected": log[tid], "observed": gl, "kind": "thunk"}
+    if im["after"] != [["r", 0, 99, len(case["tracers"]) - 1]]:
+        return {"what": "a replaced main-thread statement AFTER the concurrent activity", "expected": [["r", 0, 99, len(case["tracers"]) - 1]], "observed": im["after"], "kind": "thunk"}
+    return None
+
+
+def windows_interleaved(c):
+    """does the schedule run another thread's step while some thread is between the two halves of a replaced statement? (simulated)"""
+    pos = [[0, False] for _ in c["threads"]]
+    for t in c["sched"]:
+        if t >= len(pos) or pos[t][0] >= c["threads"][t]:
+            continue
+        if any(w for u, (_, w) in enumerate(pos) if u != t):
+            return True
+        if pos[t][1]:
+            pos[t] = [pos[t][0] + 1, False]
+        elif final_repl(c, t, pos[t][0]) is not None:
+            pos[t][1] = True
+        else:
+            pos[t][0] += 1
+    return False
+
+
+def thunk_cases_file(cases):
+    L = ["From Coq Require Import List NArith Bool Arith.", "Import ListNotations.",
+         "From PyccoloV Require Import gen.Switches.", "From PyccoloV Require model.Thunk.",
+         "Definition code (o : Thunk.outcome) : N := match o with Thunk.Orig => 0%N | Thunk.Fail => 1%N | Thunk.Ran v => (2 + v)%N end.",
+         "Definition one (ms : list bool) (progs : list (list (option N))) (sched : list nat) :=",
+         "  let s := Thunk.run thunk_shared thunk_store_all (fun k => nth k ms false) (length ms - 1) sched (Thunk.init (fun t => nth t progs [])) in",
+         "  map (fun t => map code (Thunk.outs (Thunk.threads s t))) (seq 0 (length progs))."]
+    for c in cases:
+        progs = []
+        for tid, n in enumerate(c["threads"]):
+            progs.append("[%s]" % "; ".join("None" if final_repl(c, tid, i) is None else "Some %d%%N" % final_repl(c, tid, i) for i in range(n)))
+        L.append("Eval vm_compute in one [%s] [%s] [%s]%%nat." % ("; ".join("true" if t["multi"] else "false" for t in c["tracers"]), "; ".join(progs), "; ".join(map(str, c["sched"]))))
+    return "\n".join(L) + "\n"
+
+
+def thunk_impl_view(case, im):
+    """per thread, the outcomes in the model's coding, cut where the schedule stops (the harness then lets every thread finish)"""
+    out = []
+    for tid in range(len(case["threads"])):
+        row = []
+        for e in im["rec"]:
+            if e[1] == tid:
+                row.append(0 if e[0] == "o" else (1 if e[0] == "x" else 2 + e[3]))
+        out.append(row)
+    return out
+
+
+# ---------------------------------------------------------------- K-lines: every line of emit_event.py is a scheduling point
+def gen_lines_case(rng):
+    nthreads = rng.choice([2, 2, 3])
+    threads = [rng.choice([1, 2])] + [rng.choice([1, 2]) for _ in range(nthreads - 1)]
+    tracers = [{"multi": rng.random() < 0.5, "allow_re": rng.random() < 0.3, "h_re": rng.random() < 0.3, "nest": rng.random() < 0.5, "region": rng.random() < 0.3}
+               for _ in range(rng.choice([1, 2, 2]))]
+    sched = []
+    for _ in range(rng.randrange(10, 120)):
+        sched += [rng.randrange(nthreads)] * rng.choice([1, 1, 2, 3, 5, 8, 13])
+    return {"tracers": tracers, "threads": threads, "sched": sched, "lines": True}
+
+
+def run_lines(cases):
+    rc, res, out = lib.impl_run("c17_lines.py", cases, timeout=1200)
+    if res is None:
+        raise RuntimeError("implementation harness failed:\n" + out[-3000:])
+    return res
+
+
+def lines_oracle(case, im):
+    if "crash" in im:
+        return {"what": "harness crashed: " + im["crash"], "tb": im.get("tb")}
+    r = im["run"]
+    if r["errors"] or any(a["errors"] for a in im["alone"].values()):
+        return {"what": "scheduler error", "errors": r["errors"] + [e for a in im["alone"].values() for e in a["errors"]]}
+    for tid in range(len(case["threads"])):
+        alone = im["alone"][str(tid)]
+        got = [e for e in r["log"] if e[0] == tid]
+        if got != alone["log"]:
+            return {"what": "%s thread %d: deliveries [thread, tracer, handlers already running] under the line-level schedule differ from the thread running alone"
+                            % ("main" if tid == 0 else "worker", tid), "expected": alone["log"], "observed": got, "kind": "lines"}
+        for x in got:
+            if tid != 0 and not case["tracers"][x[1]]["multi"]:
+                return {"what": "worker thread %d delivered to tracer %d which does not allow multiple threads" % (tid, x[1]), "kind": "lines"}
+    if r["after"] != im["alone"]["0"]["after"]:
+        return {"what": "main thread deliveries AFTER the concurrent activity differ from a run with no other thread", "expected": im["alone"]["0"]["after"], "observed": r["after"], "kind": "lines"}
+    if r["switches_main"] != [True, False]:
+        return {"what": "switches seen by the main thread afterwards", "observed": r["switches_main"], "kind": "lines"}
+    return None
 
 
 def signature(case, f):
@@ -107,8 +261,12 @@ def run(ctx, model_ok):
     for i in range(0, len(cases), 30):
         impl += run_impl(cases[i:i + 30])
     failures = []
+    located = not (impl and "crash" in impl[0] and str(impl[0]["crash"]).startswith("locate:"))
+    if not located:
+        ctx.tie_broken("correspondence", "K-thr: the modelled statement-level steps cannot be found in emit_event.py (%s); the line-level scheduler (K-lines) "
+                       "searches for a failing schedule without them" % impl[0]["crash"], "")
     for c, im in zip(cases, impl):
-        f = oracle_case(c, im)
+        f = oracle_case(c, im) if located else None
         if f:
             f.update({"case": c, "signature": signature(c, f), "kind": "oracle"})
             failures.append(f)
@@ -117,7 +275,7 @@ def run(ctx, model_ok):
     mism, validated = [], 0
     # the model itself (not the property file) must be built for the correspondence
     ok, out = lib.coq_make(["model/Threads.vo", "gen/Switches.vo"])
-    if ok:
+    if ok and located:
         rc, out = lib.coq_eval("c17_cases", coq_cases_file(cases), timeout=900)
         vals = lib.parse_marked(out) if rc == 0 else []
         if rc != 0 or len(vals) != len(cases):
@@ -135,8 +293,62 @@ def run(ctx, model_ok):
                     validated += 1
             if mism:
                 ctx.tie_broken("correspondence", "model/Threads.v and the real scheduler runs disagree on %d of %d cases" % (len(mism), len(cases)), json.dumps(mism[0])[:3000])
-    else:
+    elif not ok:
         ctx.tie_broken("correspondence", "model/Threads.v does not build", out)
+    # replaced statements: K-thunk (model/Thunk.v vs the real before_stmt replacement protocol under a two-halves scheduler)
+    tcases = [dict(r) for r in getattr(ctx, "known_replays", []) + getattr(ctx, "fixed_replays", []) if "repl_sched" in r]
+    while len(tcases) < (80 if ctx.tier == "quick" else 800):
+        tcases.append(gen_thunk_case(rng))
+    timpl = []
+    for i in range(0, len(tcases), 40):
+        timpl += run_thunk(tcases[i:i + 40])
+    tfail = 0
+    for c, im in zip(tcases, timpl):
+        f = thunk_oracle(c, im)
+        if f and tfail < 2:
+            tfail += 1
+            f.update({"case": c, "signature": "unlisted", "harness": "c17_thunk.py"})
+            failures.append(f)
+    tvalidated = 0
+    ok3, out3 = lib.coq_make(["model/Thunk.vo", "gen/Switches.vo"])
+    if ok3:
+        rc, out = lib.coq_eval("c17_tcases", thunk_cases_file(tcases), timeout=900)
+        vals = lib.parse_marked(out) if rc == 0 else []
+        if rc != 0 or len(vals) != len(tcases):
+            ctx.tie_broken("correspondence", "coqc failed on the replaced-statement cases (rc=%s, %d/%d)" % (rc, len(vals), len(tcases)), out[-2000:])
+        else:
+            tm = []
+            for c, v, im in zip(tcases, vals, timpl):
+                if "crash" in im or im.get("errors"):
+                    tm.append({"case": c, "detail": im})
+                    continue
+                mv = [list(r) for r in lib.parse_coq_list(v)]
+                iv = thunk_impl_view(c, im)
+                # the model stops where the schedule stops; the real threads then run to completion: the model's outcomes are a prefix
+                if any(m != i_[:len(m)] for m, i_ in zip(mv, iv)) or len(mv) != len(iv):
+                    tm.append({"case": c, "model": mv, "impl": iv})
+                else:
+                    tvalidated += 1
+            if tm:
+                mism += tm
+                ctx.tie_broken("correspondence", "model/Thunk.v and the real replacement protocol disagree on %d of %d schedules" % (len(tm), len(tcases)), json.dumps(tm[0])[:3000])
+    else:
+        ctx.tie_broken("correspondence", "model/Thunk.v does not build", out3)
+    validated += tvalidated
+    # every line of emit_event.py as a scheduling point, nested emissions in all threads: the property itself, no model
+    lcases = [dict(r) for r in getattr(ctx, "known_replays", []) + getattr(ctx, "fixed_replays", []) if r.get("lines")]
+    while len(lcases) < (60 if ctx.tier == "quick" else 700):
+        lcases.append(gen_lines_case(rng))
+    limpl = []
+    for i in range(0, len(lcases), 30):
+        limpl += run_lines(lcases[i:i + 30])
+    lfail = 0
+    for c, im in zip(lcases, limpl):
+        f = lines_oracle(c, im)
+        if f and lfail < 2:
+            lfail += 1
+            f.update({"case": c, "signature": "unlisted", "harness": "c17_lines.py"})
+            failures.append(f)
     # nested emissions inside worker threads (handlers that run instrumented code): model/Reent.v with in_main = false
     from props import C16
     wcases = []
@@ -174,16 +386,24 @@ def run(ctx, model_ok):
     else:
         ctx.tie_broken("correspondence", "model/Reent.v does not build", out2)
     validated += wvalidated
-    cases_total = len(cases) + len(wcases)
+    cases_total = len(cases) + len(wcases) + len(tcases) + len(lcases)
     # exhaustive on the model side: all merges of 1 main x 1 worker emission satisfy the projection property (thorough)
     return {
         "evaluations": cases_total, "distinct_nontrivial": len({lib.digest(c) for c in cases if len(set(c["sched"])) >= 2}),
         "rule": "the known 27-step witness + random schedules: 2-3 threads x 1-3 emissions, 1-3 tracers (multi-thread 35%, reentrant 30%), "
                 "uniformly shuffled or bursty merges of the complete 9-step sequences; each replayed on the real emit_event.py by parking "
-                "threads before every modelled statement; non-trivial = at least two threads appear in the schedule",
+                "threads before every modelled statement; non-trivial = at least two threads appear in the schedule.  K-thunk: 2-3 threads x 1-3 statements, "
+                "1-3 tracers (multi-thread 50%) whose before_stmt handlers replace 45% of the statements, random schedules over the two halves of every replaced "
+                "statement (emission / exec of the saved value), vs model/Thunk.v and vs each thread alone.  K-lines: 2-3 threads x 1-2 statements, handlers that run "
+                "nested instrumented code (with / without a reentrant region), every line of every function of emit_event.py a scheduling point, random bursty "
+                "schedules, oracle = each thread's deliveries equal those of the same thread running alone",
         "samples": [cases[1] if len(cases) > 1 else cases[0]], "traces_validated": validated,
         "distribution": {"threads": {str(k): sum(1 for c in cases if len(c["threads"]) == k) for k in (2, 3)},
-                         "schedule_steps": sum(len(c["sched"]) for c in cases)},
+                         "schedule_steps": sum(len(c["sched"]) for c in cases),
+                         "replaced_statement_schedules": len(tcases), "replaced_statements": sum(1 for c in tcases for tid, n in enumerate(c["threads"]) for i in range(n) if final_repl(c, tid, i) is not None),
+                         "replaced_windows_interleaved": sum(1 for c, im in zip(tcases, timpl) if "rec" in im and windows_interleaved(c)),
+                         "line_level_schedules": len(lcases), "line_level_steps": sum(len(c["sched"]) for c in lcases),
+                         "line_level_nested_deliveries": sum(1 for im in limpl if "run" in im for e in im["run"]["log"] if e[2] >= 1)},
         "failures": failures, "extra": {"model_impl_disagreements": len(mism)},
     }
 
